@@ -6,7 +6,7 @@ CONSTANTS
  Faults <- MC_Faults
  Known <- MC_Known
  MaxDepth = 5
- Only = "C02"
+ Only = "C03"
  Export = TRUE
 VIEW View
 PROPERTY StepOK
